@@ -149,4 +149,7 @@ var (
 )
 
 func OptKeys(keys ...string) OptSet { return OptSet{{Kind: "K", Keys: keys}} }
+func OptKeysMrg(keys ...string) OptSet {
+	return OptSet{{Kind: "K", Keys: keys}, {Kind: "M"}}
+}
 func OptPrec(eps float64) OptSet    { return OptSet{{Kind: "P", Prec: eps}} }
